@@ -13,7 +13,9 @@ MISSING = re.compile(r"ECall \{\s*func: Box::new\(Expr::EVar \{\s*name: \"missin
 
 UNIT = Unit(
     name="U-BLOCK",
-    properties=["C09"],
+    properties=["C09", "C17"],
+    # the method-value clause (an inherent method used as a value is the function its call form names) is C17's; the rest is C09's
+    clause_scope={"C17": {"only": ["inherent_name("]}, "C09": {"except": ["inherent_name("]}},
     rules=["attrs", ("strip", "tast::"), ("strip", "common_defs::")],
     describe="compile_match::compile_block_exprs: the expressions of a block are evaluated in source order, each exactly once — `{ e }` is e; "
              "`{ first; rest.. }` becomes a let that evaluates `first` (resp. the value of a `let`) BEFORE everything that follows and binds it "
@@ -72,5 +74,12 @@ UNIT = Unit(
            contract="ensures r matches core::Expr::EConstr { constructor: c, args: out, ty: t } && c == *constructor && cores_of(args@, out@) && t == *ty,",
            loop_fn=lambda k, header, kw: ("invariant __mi0 <= args@.len(), __mo0@.len() == __mi0, forall|i: int| 0 <= i < __mi0 ==> #[trigger] __mo0@[i] == core_of(args@[i]),\n"
                                           "decreases args@.len() - __mi0,")),
+        Fn(file=CM, name="compile_expr", rename="compile_method_value", ret="r",
+           cut_from=re.compile(r"\n        EInherentMethod \{\s*receiver_ty,\s*method_name,\s*ty,\s*\.\.\s*\} => "), cut_inside=True,
+           cut_before="EToDyn {", cut_tail="",
+           sig="fn compile_method_value(receiver_ty: &Ty, method_name: &TastIdent, ty: &Ty) -> core::Expr",
+           rewrites=[(re.compile(r"\.clone\(\)"), ".vclone()", "*"), ("&method_name.0", "string_as_str2(&method_name.0)", "*"), (re.compile(r",\s*\}\s*$"), "\n}", 1)],
+           obligation="an inherent method used as a value is the function its call form names (inherent_method_fn_name of receiver type and method), at the method's type — no panic",
+           contract="ensures r matches core::Expr::EVar { name, ty: t } && name@ == inherent_name(*receiver_ty, method_name.0@) && t == *ty,"),
     ],
 )
